@@ -52,6 +52,11 @@ func (mk mapKinds) keyLit(k int) string {
 			return "0.0"
 		}
 		return fmt.Sprintf("%d.5", k-1)
+	case "uint32": // keys beyond the int32 range (and the zero key)
+		if k == 2 {
+			return "0"
+		}
+		return strconv.Itoa(4000000000 + k)
 	case "bool":
 		if k == 1 {
 			return "true"
@@ -60,6 +65,14 @@ func (mk mapKinds) keyLit(k int) string {
 	}
 	panic("kind")
 }
+// keyShow: how a key expression is handed to println (a constant beyond int32 has to be given its type there)
+func (mk mapKinds) keyShow(key string) string {
+	if mk.Key == "uint32" && len(key) > 0 && key[0] >= '0' && key[0] <= '9' {
+		return "uint32(" + key + ")"
+	}
+	return key
+}
+
 func (mk mapKinds) keyPrinted(k int) string {
 	switch mk.Key {
 	case "string":
@@ -74,6 +87,11 @@ func (mk mapKinds) keyPrinted(k int) string {
 			return "0"
 		}
 		return fmt.Sprintf("%d.5", k-1)
+	case "uint32":
+		if k == 2 {
+			return "0"
+		}
+		return strconv.Itoa(4000000000 + k)
 	case "bool":
 		if k == 1 {
 			return "true"
@@ -122,6 +140,11 @@ func (mk mapKinds) keyValue(k int) goat.Value {
 			return goat.Byte(0)
 		}
 		return goat.Byte(byte(k))
+	case "uint32":
+		if k == 2 {
+			return goat.Uint32(0)
+		}
+		return goat.Uint32(uint32(4000000000 + k))
 	case "float":
 		if k == 2 {
 			return goat.Float64(0)
@@ -140,6 +163,8 @@ func (mk mapKinds) goatKeyType() goat.Type {
 		return goat.TypeInt32
 	case "byte":
 		return goat.TypeUint8
+	case "uint32":
+		return goat.TypeUint32
 	case "float":
 		return goat.TypeFloat64
 	case "bool":
@@ -336,7 +361,7 @@ func mapOpsToScriptLit(mk mapKinds, ops []MapOp, lit int) string {
 		fmt.Fprintf(&b, "\tm := map[%s]%s{%s}\n", mk.keyType(), mk.valType(), strings.Join(ents, ", "))
 	}
 	for _, op := range ops[:lit] {
-		fmt.Fprintf(&b, "\tprintln(\"E\", \"set\", %s, %s)\n", mk.keyLit(op.K), mk.valLit(op.V))
+		fmt.Fprintf(&b, "\tprintln(\"E\", \"set\", %s, %s)\n", mk.keyShow(mk.keyLit(op.K)), mk.valLit(op.V))
 	}
 	ops = ops[lit:]
 	depth := 0
@@ -371,19 +396,23 @@ func mapOpsToScriptLit(mk mapKinds, ops []MapOp, lit int) string {
 					fmt.Fprintf(&b, "%sif m == nil {\n%s\tm = make(map[%s]%s)\n%s}\n", pre, pre, mk.keyType(), mk.valType(), pre)
 				}
 				fmt.Fprintf(&b, "%sm[%s] = %s\n", pre, key, mk.valLit(op.V))
-				fmt.Fprintf(&b, "%sprintln(\"E\", \"set\", %s, %s)\n", pre, key, mk.valLit(op.V))
+				fmt.Fprintf(&b, "%sprintln(\"E\", \"set\", %s, %s)\n", pre, mk.keyShow(key), mk.valLit(op.V))
 				if clone != "" {
 					fmt.Fprintf(&b, "%s%s[%s] = %s\n%s_ = len(%s)\n", pre, clone, mk.keyLit(99), mk.valLit(op.V), pre, clone)
 				}
 			case "del":
 				fmt.Fprintf(&b, "%sdelete(m, %s)\n", pre, key)
-				fmt.Fprintf(&b, "%sprintln(\"E\", \"del\", %s)\n", pre, key)
+				fmt.Fprintf(&b, "%sprintln(\"E\", \"del\", %s)\n", pre, mk.keyShow(key))
 			case "get":
-				fmt.Fprintf(&b, "%sprintln(\"E\", \"get\", %s, m[%s])\n", pre, key, key)
+				fmt.Fprintf(&b, "%sprintln(\"E\", \"get\", %s, m[%s])\n", pre, mk.keyShow(key), key)
 			case "getok":
 				depth++
-				fmt.Fprintf(&b, "%sg%d, ok%d := m[%s]\n", pre, depth, depth, key)
-				fmt.Fprintf(&b, "%sprintln(\"E\", \"getok\", %s, ok%d, g%d)\n", pre, key, depth, depth)
+				if depth%2 == 0 {
+					fmt.Fprintf(&b, "%svar g%d, ok%d = m[%s]\n", pre, depth, depth, key)
+				} else {
+					fmt.Fprintf(&b, "%sg%d, ok%d := m[%s]\n", pre, depth, depth, key)
+				}
+				fmt.Fprintf(&b, "%sprintln(\"E\", \"getok\", %s, ok%d, g%d)\n", pre, mk.keyShow(key), depth, depth)
 			case "len":
 				fmt.Fprintf(&b, "%sprintln(\"E\", \"len\", len(m))\n", pre)
 			case "range":
@@ -844,7 +873,7 @@ func checkC10(c *Ctx) {
 		}
 		traces = append(traces, tr)
 	}
-	kinds := []mapKinds{{"string", "int"}, {"int", "int"}, {"byte", "string"}, {"float", "int"}, {"bool", "int"}, {"string", "string"}, {"int", "string"}}
+	kinds := []mapKinds{{"string", "int"}, {"int", "int"}, {"byte", "string"}, {"float", "int"}, {"bool", "int"}, {"string", "string"}, {"int", "string"}, {"uint32", "int"}}
 	small := smallMapHistories(c.pick(3, 4))
 	for i, h := range small {
 		mk := kinds[i%len(kinds)]
